@@ -15,11 +15,15 @@ def main():
     T = q["threads"]
     R = q["rounds"]
 
-    def run(j, v=10000):
-        """{v} in a job text is a per-call varying isotope (1000..1996): a stream of ever new bracket atoms, so that
-        bounded caches keep evicting; results are compared after renaming it (10000..18998, a range no other number in an output falls into)"""
+    W_EVERY = int(q.get("w_every", 1))
+
+    def run(j, v=10000, w=20000):
+        """{v} in a job text is a per-call, per-thread varying isotope (10000..18998): a stream of ever new bracket atoms, so that
+        bounded caches keep evicting; {w} is a varying isotope (20000..28998) that is the same in every thread at the same call
+        number, so that all threads meet the same never-seen symbol at about the same moment. Results are compared after
+        renaming them (ranges no other number in an output falls into)"""
         fl = j.get("flags", {})
-        text = j["text"].replace("{v}", str(v))
+        text = j["text"].replace("{v}", str(v)).replace("{w}", str(w))
         try:
             if j["kind"] == "dec":
                 r = sf.decoder(text, attribute=bool(fl.get("attribute")), compatible=bool(fl.get("compatible")))
@@ -27,9 +31,16 @@ def main():
                 r = sf.encoder(text, strict=bool(fl.get("strict", True)), attribute=bool(fl.get("attribute")))
             if fl.get("attribute"):
                 r = [r[0], [[a.index, a.token, [[x.index, x.token] for x in (a.attribution or [])]] for a in r[1]]]
-            return json.loads(json.dumps(["ok", r]).replace(str(v), "V")) if "{v}" in j["text"] else ["ok", r]
+            if "{v}" in j["text"] or "{w}" in j["text"]:
+                return json.loads(json.dumps(["ok", r]).replace(str(v), "V").replace(str(w), "W"))
+            return ["ok", r]
         except Exception as e:  # noqa
             return ["exc", type(e).__name__]
+
+    if q.get("warm"):
+        # warm variant: every job has run alone once before the threads start (caches and lazily built tables are filled)
+        for j in jobs:
+            run(j, 19998, 29998)
 
     barrier = threading.Barrier(T)
     results = [[] for _ in range(T)]
@@ -45,21 +56,41 @@ def main():
                 # first-ever call at the same moment
                 idx = (k + t) % len(jobs) if rotate else k
                 n += 1
-                results[t].append((idx, run(jobs[idx], 10000 + (n * 7 + t * 1301) % 8999)))
+                results[t].append((idx, run(jobs[idx], 10000 + (n * 7 + t * 1301) % 8999, 20000 + ((n // W_EVERY) * 7) % 8999)))
 
     sys.setswitchinterval(1e-6)
     ths = [threading.Thread(target=worker, args=(t,), daemon=True) for t in range(T)]
     for t in ths:
         t.start()
-    for t in ths:
-        t.join(120)
+    # wait until all threads are done; a run in which no thread completes a single call for STALL seconds (each call
+    # takes milliseconds when run alone) has stalled: the threads are waiting for each other
+    import time
+    STALL = float(q.get("stall_seconds", 90))
+    last, seen = time.monotonic(), -1
+    stalled = False
+    while any(t.is_alive() for t in ths):
+        time.sleep(0.2)
+        done = sum(len(r) for r in results)
+        now = time.monotonic()
+        if done != seen:
+            seen, last = done, now
+        elif now - last > STALL:
+            stalled = True
+            break
     sys.setswitchinterval(0.005)
+    if stalled:
+        # a serial call could now wait for ever on whatever the threads wait on: report and leave
+        json.dump(dict(file=sf.__file__, mismatches=[], calls=seen, alive=sum(t.is_alive() for t in ths), stalled=True,
+                       ring_scan=[], serial_after=[], concurrent_distinct={}), sys.stdout)
+        sys.stdout.flush()
+        import os
+        os._exit(0)
     expected = [run(j) for j in jobs]
     mism = []
     for t in range(T):
         for idx, got in results[t]:
             if got != expected[idx]:
-                mism.append(dict(thread=t, job=jobs[idx], serial=str(expected[idx])[:300], concurrent=str(got)[:300]))
+                mism.append(dict(thread=t, job=dict(jobs[idx], text=jobs[idx]["text"][:400]), serial=str(expected[idx])[:300], concurrent=str(got)[:300]))
                 if len(mism) >= 3:
                     break
     # after the race: every ring size up to the largest one requested, so that an entry of a lazily grown table that
